@@ -162,6 +162,36 @@ def symbolic_job(params, body, replay, *, timeout_ms=120000, budget_s=1500, max_
     return out
 
 
+def merge_results(results):
+    """Combine the outcomes of several explorations run inside one job."""
+    out = dict(status='ok', message='', cex=[], known=[], validated=0, stats={}, labels={}, samples=[], functions=[], notes=[])
+    rank = {'ok': 0, 'inconclusive': 1, 'violation': 2}
+    for r in results:
+        if rank[r['status']] > rank[out['status']]:
+            out['status'] = r['status']
+        if r.get('message'):
+            out['message'] += r['message'] + ' | '
+        if r.get('trace') and 'trace' not in out:
+            out['trace'] = r['trace']
+        out['cex'] += r.get('cex', [])
+        out['known'] += r.get('known', [])
+        out['validated'] += r.get('validated', 0)
+        for k, v in (r.get('stats') or {}).items():
+            if k == 'max_query_s':
+                out['stats'][k] = max(out['stats'].get(k, 0), v)
+            else:
+                out['stats'][k] = out['stats'].get(k, 0) + v
+        for k, v in (r.get('labels') or {}).items():
+            out['labels'][k] = out['labels'].get(k, 0) + v
+        out['samples'] += (r.get('samples') or [])[:1]
+        seen = {(f['file'], f['function']) for f in out['functions']}
+        out['functions'] += [f for f in r.get('functions', []) if (f['file'], f['function']) not in seen]
+        out['notes'] += r.get('notes', [])
+    out['samples'] = out['samples'][:3]
+    out['notes'] = out['notes'][:5]
+    return out
+
+
 def _replayed(cx, params, replay):
     from . import core
     r = dict(label=cx['label'], inputs=core.jsonable(cx['inputs']), detail=cx.get('detail'))
